@@ -23,6 +23,12 @@ from numba_scfg.core.datastructures.scfg import SCFG
 STAGES = ("join_returns", "restructure_loop", "restructure_branch")
 
 
+def fwd_targets(b):
+    """the non-back-edge targets of a block, in order - computed here from the two stored tuples, not taken from the
+    library's own `jump_targets` property (which is part of the code under test)"""
+    return tuple(t for t in b._jump_targets if t not in b.backedges)
+
+
 # ---------------------------------------------------------------------------
 # building inputs
 
@@ -246,7 +252,7 @@ def header_leaf(b):
 def top_head(scfg):
     heads = set(scfg.graph)
     for b in scfg.graph.values():
-        for t in b.jump_targets:
+        for t in fwd_targets(b):
             heads.discard(t)
     return sorted(heads)
 
@@ -529,7 +535,7 @@ def check_hier(scfg):
                     errs.append(("exiting-outside", b.kind, n, b.exiting))
                 else:
                     ex = sub.graph[b.exiting]
-                    if ex.jump_targets != b.jump_targets:
+                    if fwd_targets(ex) != fwd_targets(b):
                         errs.append(("region-vs-exiting-targets", b.kind, n, ex._jump_targets, b._jump_targets))
                 pr = b.parent_region
                 if pr is None or pr.name != parent_region.name or pr.subregion is not g:
@@ -662,7 +668,7 @@ def check_struct(scfg, orig=None):
 
     def level(g, region):
         names = set(g.graph)
-        succ = {n: [t for t in b.jump_targets if t in names] for n, b in g.graph.items()}
+        succ = {n: [t for t in fwd_targets(b) if t in names] for n, b in g.graph.items()}
         color = {}
 
         def dfs(u):
@@ -689,7 +695,7 @@ def check_struct(scfg, orig=None):
                 errs.append(("cycle-at-level", region.kind, region.name))
                 break
         for n, b in g.graph.items():
-            jt = b.jump_targets
+            jt = fwd_targets(b)
             if len(jt) > 1:
                 if isinstance(b, RegionBlock):
                     if b.kind != "head":
@@ -703,10 +709,10 @@ def check_struct(scfg, orig=None):
                         if not isinstance(tb, RegionBlock) or tb.kind != "branch":
                             errs.append(("succ-not-branch-region", region.kind, n, t, type(tb).__name__, getattr(tb, "kind", None)))
                             continue
-                        if len(tb.jump_targets) != 1:
-                            errs.append(("branch-continuations", n, t, tb.jump_targets))
+                        if len(fwd_targets(tb)) != 1:
+                            errs.append(("branch-continuations", n, t, fwd_targets(tb)))
                             continue
-                        tails.add(tb.jump_targets[0])
+                        tails.add(fwd_targets(tb)[0])
                     if len(tails) > 1:
                         errs.append(("branches-different-tails", n, tuple(sorted(tails))))
                     for t in tails:
